@@ -77,6 +77,43 @@ M = {
  "C17-D": ("evaluation guards kept in thread_local cells; the nesting level is not restored on the error path", "on one thread: a build failing inside a symbol's definition (cyclic `.equ`), then a build using an expression-defined symbol"),
  "C18-C": ("records streamed through a BufWriter that is dropped without flush", "an output that opens but rejects writes, and a hex text below the 8 KiB buffer"),
  "C18-D": ("default output path = source.with_extension(\"\").with_extension(ext)", "no -o/-e and a source name whose stem contains a dot"),
+ # ---- round 3 (prompt: hide the change in the corners of the quantifier a systematic checker is least likely to visit) ----
+ "C01-E": ("rjmp/rcall displacement wrapped around the flash on every device with at most 4 K words", "a device of 512..2048 words and an rjmp/rcall over at least half the flash (caught by C03: the reach of relative jumps is its subject)"),
+ "C01-F": ("pass 1 sizes lds/sts from a static table (two words), pass 2 emits one word on the reduced core", "`.device ATtiny20`, an lds/sts and a later label used as an operand"),
+ "C02-E": ("zero fill of gaps copied page-wise; the page count is computed in cells, the remainder in bytes", "a code-segment .org gap of 2048 words or more"),
+ "C02-F": ("C-style escapes in strings; pass 1 mis-counts an escaped backslash", "a `.db` string containing `\\\\` followed by anything whose address matters"),
+ "C03-E": ("pass 1 sizes instructions from a device-blind table", "`.device ATtiny20` and an lds/sts between a branch and its target"),
+ "C03-F": ("pass 2 memoises the encoded bytes per source line (line number, item number)", "a macro body holding a branch to a label outside the macro, expanded at two or more addresses"),
+ "C04-E": ("operand errors are collected per segment; the 'failed' flag is overwritten by each later segment", "an instruction the ISA cannot encode, followed by another non-empty, error-free segment"),
+ "C04-F": ("rjmp/rcall targets reduced modulo 4096 on devices with 4096 words before the range check", "such a device and a target more than 2 K words away or outside the device"),
+ "C05-E": ("(delivered late, see eval.json)", "(see README.md)"),
+ "C05-F": ("(delivered late, see eval.json)", "(see README.md)"),
+ "C06-E": ("`.dw <bare label>` is written straight from the label table as u16, skipping the range check", "a label above 0xFFFF (behind `.org 0x10000`) as a bare `.dw` operand"),
+ "C06-F": ("the nesting guard counts `-`, `!`, `~` inside strings", "a string operand with a run of more than 200 such characters"),
+ "C07-E": ("one record builder reused for the code and the EEPROM text; its block counter is not reset", "one build result with a code image of 64 KiB or more and a non-empty EEPROM image"),
+ "C07-F": ("'leave an unchanged file alone': the file is opened read+write, compared, rewritten from the start, never truncated (and /dev/full is read without end)", "the output path already holds a longer file"),
+ "C08-E": ("skip pre-filter hands only lines beginning with `.`/`#` to the grammar", "a conditional directive with a label in front of it inside skipped text"),
+ "C08-F": ("new 'missing .endif' error, also raised when the file was ended by `.exit`", "an assembled `.exit` inside a selected arm"),
+ "C09-E": ("expansion cache for bodies that define nothing, keyed by name, arguments and segment address", "a macro that tests a flag, another macro that defines it, the first one called before and after"),
+ "C09-F": ("new 'missing argument' error that also inspects unselected arms and comments", "a call that omits a trailing argument mentioned only in an unselected arm or a comment"),
+ "C10-E": ("new device gate for r0..r15 on the reduced core that only sees registers written literally", "`.device ATtiny20`, an alias of r0..r15, any instruction with a register operand"),
+ "C10-F": ("duplicate-label check against a per-segment table", "two definitions of one label separated by `.org` or a segment directive"),
+ "C11-E": ("build-wide cache from the include name as written to the path where it was found", "the same name beside two different includers; or a name that exists only beside another includer"),
+ "C11-F": ("new 'missing .endif' error, also raised when the file was ended by `.exit`", "an include guard: `.ifdef G / .exit / .endif` on the second inclusion"),
+ "C12-E": ("the device is looked up before pass 0 for the final capacity check and the reported sizes", "`.device` inside the body of a macro that is called"),
+ "C12-F": ("pass-0 budget became a word budget that also charges data lines - including EEPROM data a macro places", "flash at (nearly) full capacity plus a macro whose body starts with `.eseg` data"),
+ "C13-E": ("device-gate verdict memoised per mnemonic in pass 2", "an available form of a mnemonic before a lacking form of the same mnemonic"),
+ "C13-F": ("pass 1 sizes `sts` as two words on the reduced core (lds handled, sts forgotten)", "`.device ATtiny20`, an sts and a later label"),
+ "C14-E": ("skip pre-filter that steps over a leading label at the first `:` unless a space precedes it", "a conditional directive in skipped text with a glued or tab-separated comment containing `:`"),
+ "C14-F": ("`pc` kept in a Cell; the fast path compares the name before case-folding", "`PC` / `Pc` not as the first item of its segment"),
+ "C15-E": ("line continuation: a trailing backslash joins the next line before lines are numbered", "a comment line ending in a backslash before the faulty line / message"),
+ "C15-F": ("skip pre-filter hands only lines beginning with `.`/`#` to the grammar", "an `.error` / message behind a labelled `.endif` or inside an arm opened by a labelled `.if`"),
+ "C16-E": ("the `.set` 'used twice' error describes the other symbol while the table is mutably borrowed", "a `.set` name clashing with an `.equ` whose expression mentions a label, a `.set` symbol or `pc`"),
+ "C16-F": ("exp2/log2 helpers evaluate their argument through the public entry point: the cycle and cost guards restart", "definitions that are cyclic through exp2 or log2, plus one evaluated use"),
+ "C17-E": ("'did you mean' hint chosen with min_by_key over a HashMap's keys", "a call of an undefined macro while two defined macros are equally close"),
+ "C17-F": ("thread-local cache of parsed macro expansions keyed by the substituted body text and segment address", "two builds on one thread sharing a macro letter for letter whose body reads a symbol that differs"),
+ "C18-E": ("records streamed through a BufWriter that is dropped without flush", "an output that opens but rejects writes, and a hex text below 8 KiB"),
+ "C18-F": ("the verbose summary is printed before the files are written; integer percentages divide by the RAM size", "`-v` and a device without RAM (ATtiny11 ...)"),
 }
 MATRIX = json.load(open(os.path.join(ROOT, "seeded", "matrix.json"))) if os.path.exists(os.path.join(ROOT, "seeded", "matrix.json")) else {}
 rows = []
